@@ -233,3 +233,10 @@ def signature(traces):
         sig[t] = [(o['kind'], o['obj'], o.get('k'), o.get('item'), o.get('data'), o.get('eof')) for o in ops
                   if o['kind'] != 'th_alive']
     return sig
+
+
+def recorded_schedule(traces):
+    """the order in which a (stalled) recording actually executed its operations, as a forced-replay schedule"""
+    items = [(o['seq'], t, o['idx']) for t, ops in traces.items() for o in ops if o.get('done') and 'seq' in o]
+    items.sort()
+    return [(t, idx) for _, t, idx in items]
